@@ -1,9 +1,11 @@
 (* C06 -- Blind BBS soundness.  Proved here: gating (a blind signature is returned only if the commitment is absent or its
    proof of correctness verified against this suite's blind generators), strict framing of the commitment (only
    112 + 32 k octets decode; re-encoding is the identity), and that an accepted commitment proof pins its challenge to the
-   hash of (M, blind generators, C, recomputed Cbar).  Bit flips / other messages / cross-suite replays of accepted
+   hash of (M, blind generators, C, recomputed Cbar); special soundness (commit_special_soundness): two accepted transcripts with
+   the same Cbar and different challenges give an opening of C over the blind generators by explicit formulas.
+   Bit flips / other messages / cross-suite replays of accepted
    commitments and the binding of blind signatures and proofs rest on collision resistance: correspondence + sweep. *)
-From ZK Require Import Laws BaseLemmas ModelLemmas SignProofs Codec Soundness.
+From ZK Require Import Laws BaseLemmas ModelLemmas SignProofs Codec Soundness Extractor.
 
 Theorem C06_blind_sign_gated :
   forall (E : env) sk pk cwp header msgs s,
@@ -69,3 +71,21 @@ Proof. exact commitment_codec_canonical. Qed.
 Check (C06_commitment_codec_canonical :
   forall (E : env) (LW : Laws E) b x, commitment_from_bytes E b = Ok x -> commitment_to_bytes E x = b).
 Print Assumptions C06_commitment_codec_canonical.
+
+(* special soundness of the commitment proof: the committed scalars are determined by two transcripts *)
+Theorem C06_commit_special_soundness :
+  forall (E : env) (LW : Laws E) C G2_ Js z z',
+  length (z_m_cap E z) = length (z_m_cap E z') ->
+  commit_Cbar E C G2_ Js z = commit_Cbar E C G2_ Js z' ->
+  z_chal E z <> z_chal E z' ->
+  let k := fsub (SO E) (z_chal E z) (z_chal E z') in
+  C = msm_acc E (g1_mul (PR E) (fdiv (SO E) (fsub (SO E) (z_s_cap E z) (z_s_cap E z')) k) G2_) Js (quot E (z_m_cap E z) (z_m_cap E z') k).
+Proof. exact commit_special_soundness. Qed.
+Check (C06_commit_special_soundness :
+  forall (E : env) (LW : Laws E) C G2_ Js z z',
+  length (z_m_cap E z) = length (z_m_cap E z') ->
+  commit_Cbar E C G2_ Js z = commit_Cbar E C G2_ Js z' ->
+  z_chal E z <> z_chal E z' ->
+  let k := fsub (SO E) (z_chal E z) (z_chal E z') in
+  C = msm_acc E (g1_mul (PR E) (fdiv (SO E) (fsub (SO E) (z_s_cap E z) (z_s_cap E z')) k) G2_) Js (quot E (z_m_cap E z) (z_m_cap E z') k)).
+Print Assumptions C06_commit_special_soundness.
